@@ -134,6 +134,10 @@ func (d *decEngine) loopSpec(c *Ctx, ord int, loop ast.Stmt) *LoopSpec {
 		}
 		return ls
 	}
+	if len(d.cur) == 1 && d.cur[0].IsMap {
+		d.mapEntryLoop(ls, fs, d.cur[0])
+		return ls
+	}
 	// packed element loop of a repeated scalar: per-iteration functional obligation
 	if len(d.cur) == 1 && d.cur[0].Rep && !d.cur[0].IsMap {
 		f := d.cur[0]
@@ -151,7 +155,7 @@ func (d *decEngine) loopSpec(c *Ctx, ord int, loop ast.Stmt) *LoopSpec {
 				return
 			}
 			goal := and("(= "+l1.Len+" (bvadd "+l0.Len+" (_ bv1 64)))", and("(= (select "+l1.Elems+" "+l0.Len+") "+val+")", "(= "+i1v.(Scalar).T+" "+next+")"))
-			c.addObl(Obl{Name: fmt.Sprintf("%s/%s/packed-element[appended == FromWire]", d.u.Name, f.GoName), Kind: "decode", Guard: after.guard, Goal: goal, Pos: c.pos(fs.Pos()),
+			c.addObl(Obl{Name: fmt.Sprintf("%s/%s/packed-element[appended == FromWire]", d.u.Name, f.GoName), Kind: "decode", OpaqueSpec: true, Guard: after.guard, Goal: goal, Pos: c.pos(fs.Pos()),
 				Text: "each element of a packed run is decoded with the field's wire encoding and appended in order"})
 		}
 	}
@@ -204,7 +208,7 @@ func (d *decEngine) onCaseExit(c *Ctx, cc *ast.CaseClause, e, x1 *State) {
 	s, iEnd, wt := sv.(Scalar).T, xv.(Scalar).T, wtv.(Scalar).T
 	name := func(cl string) string { return fmt.Sprintf("%s/%s/%s", d.u.Name, f.GoName, cl) }
 	add := func(cl, goal, text string) {
-		c.addObl(Obl{Name: name(cl), Kind: "decode", Guard: x1.guard, Goal: goal, Pos: c.pos(cc.Pos()), Text: text})
+		c.addObl(Obl{Name: name(cl), Kind: "decode", OpaqueSpec: true, Guard: x1.guard, Goal: goal, Pos: c.pos(cc.Pos()), Text: text})
 	}
 	wtIs := func(n int) string { return fmt.Sprintf("(= %s (_ bv%d 64))", wt, n) }
 	lenAt := d.vval(x1, s)                              // length prefix as a 64-bit value
@@ -221,6 +225,7 @@ func (d *decEngine) onCaseExit(c *Ctx, cc *ast.CaseClause, e, x1 *State) {
 	switch {
 	case f.IsMap:
 		add("record[consumed exactly]", "(= "+iEnd+" "+recEnd+")", "the case consumes exactly the map entry record")
+		d.mapCaseExit(c, cc, f, e, x1, add)
 	case f.Rep:
 		l0, okA := c.loadField(e, d.x, goName).(ListV)
 		l1, okB := c.loadField(x1, d.x, goName).(ListV)
@@ -269,15 +274,159 @@ func (d *decEngine) onCaseExit(c *Ctx, cc *ast.CaseClause, e, x1 *State) {
 
 // messageCall: some nested decode in this case was made on exactly dAtA[start : start+len) into target
 func (d *decEngine) messageCall(c *Ctx, x1 *State, name, start, ln, target string, cc *ast.CaseClause) {
+	goal := d.someCall(c, x1, start, ln, target, cc.Pos(), cc.End())
+	c.addObl(Obl{Name: name, Kind: "decode", OpaqueSpec: true, Guard: x1.guard, Goal: goal, Pos: c.pos(cc.Pos()), Text: "the nested decode reads exactly the record's payload bytes into the message that ends up in the field"})
+}
+
+func (d *decEngine) someCall(c *Ctx, x1 *State, start, ln, target string, lo, hi token.Pos) string {
 	b, _ := d.buf(x1)
 	goal := "false"
 	for _, k := range d.calls {
-		if k.pos < cc.Pos() || k.pos > cc.End() {
+		if k.pos < lo || k.pos > hi {
 			continue
 		}
 		goal = or(goal, and(k.guard, and("(= "+k.off+" "+c.addIdx(b.Off, start)+")", and("(= "+k.ln+" "+ln+")", "(= "+k.target+" "+target+")"))))
 	}
-	c.addObl(Obl{Name: name, Kind: "decode", Guard: x1.guard, Goal: goal, Pos: c.pos(cc.Pos()), Text: "the nested decode reads exactly the record's payload bytes into the message that ends up in the field"})
+	return goal
+}
+
+// ---- map entries ----
+//
+// The entry record is a sequence of fields; per iteration of the entry loop (an arbitrary one: the loop head is
+// havocked) field 1 sets the key variable to FromWire_key(payload), field 2 sets the value variable to
+// FromWire_value(payload), anything else leaves both alone; both start at the zero value of their kind; and at the
+// end of the case the message's map is the map at the start of the case (a fresh empty one if that was nil) with
+// exactly (key variable, value variable) stored.  Together: last occurrence wins inside an entry, missing parts
+// take the default, later entries overwrite earlier ones with the same key, other keys are kept.
+
+// valSame: structural identity of two symbolic values of the same Go type
+func (c *Ctx) valSame(st *State, a, b Val) string {
+	switch x := a.(type) {
+	case Scalar:
+		if y, ok := b.(Scalar); ok {
+			return "(= " + x.T + " " + y.T + ")"
+		}
+	case PtrV:
+		if y, ok := b.(PtrV); ok {
+			return "(= " + x.Ref + " " + y.Ref + ")"
+		}
+	case SliceV:
+		if y, ok := b.(SliceV); ok {
+			return and("(= "+x.Len+" "+y.Len+")", and("(= "+x.Nil+" "+y.Nil+")", or("(= "+x.Len+" "+c.ilit(0)+")", and("(= "+x.Off+" "+y.Off+")", "(= "+c.sliceArr(st, x)+" "+c.sliceArr(st, y)+")"))))
+		}
+	}
+	return "false"
+}
+
+// payloadSpec: obligation that variable value v (after the iteration) is FromWire_f of the payload that starts at p,
+// and the index after that payload
+func (d *decEngine) payloadSpec(c *Ctx, st *State, f *FieldSchema, p string, v Val, lo, hi token.Pos) (goal, next string, ok bool) {
+	if val, nx, isScalar := d.scalarSpec(st, f, p); isScalar {
+		sc, isS := v.(Scalar)
+		if !isS {
+			return "", "", false
+		}
+		return "(= " + sc.T + " " + val + ")", nx, true
+	}
+	lenAt := d.vval(st, p)
+	start := "(bvadd " + d.vend(st, p) + " (_ bv1 64))"
+	next = "(bvadd " + start + " " + lenAt + ")"
+	switch f.Kind {
+	case "string", "bytes":
+		cur, isB := v.(SliceV)
+		if !isB {
+			return "", "", false
+		}
+		goal = "(= " + cur.Len + " " + lenAt + ")"
+		if f.Kind == "string" {
+			b, _ := d.buf(st)
+			c.declareFun("ShiftOf", "("+c.byteArrSort()+" "+c.idx().smt()+") "+c.byteArrSort())
+			direct := and("(= "+cur.Off+" "+c.addIdx(b.Off, start)+")", "(= "+c.sliceArr(st, cur)+" "+c.sliceArr(st, b)+")")
+			shifted := and("(= "+cur.Off+" "+c.ilit(0)+")", "(= "+c.sliceArr(st, cur)+" (ShiftOf "+c.sliceArr(st, b)+" "+c.addIdx(b.Off, start)+"))")
+			goal = and(goal, or("(= "+lenAt+" (_ bv0 64))", or(direct, shifted)))
+		}
+		return goal, next, true
+	case "message":
+		cur, isP := v.(PtrV)
+		if !isP {
+			return "", "", false
+		}
+		return and("(not (= "+cur.Ref+" 0))", d.someCall(c, st, start, lenAt, cur.Ref, lo, hi)), next, true
+	}
+	return "", "", false
+}
+
+func (d *decEngine) mapEntryLoop(ls *LoopSpec, fs *ast.ForStmt, f *FieldSchema) {
+	name := func(cl string) string { return fmt.Sprintf("%s/%s/%s", d.u.Name, f.GoName, cl) }
+	ls.EntryObl = func(c *Ctx, pre *State) {
+		kv, ok1 := envByName(pre, "mapkey", fs.Pos())
+		vv, ok2 := envByName(pre, "mapvalue", fs.Pos())
+		if !ok1 || !ok2 {
+			return
+		}
+		goal := c.valSame(pre, kv, c.zeroValue(f.Key.GoType))
+		text := "before the first field of an entry the key and value variables hold the zero value of their kind (missing parts take the default)"
+		if f.Val.Kind != "message" {
+			goal = and(goal, c.valSame(pre, vv, c.zeroValue(f.Val.GoType)))
+		} else {
+			text = "before the first field of an entry the key variable holds the zero value (a missing message value: see the C06 finding on nil map values)"
+		}
+		c.addObl(Obl{Name: name("entry-defaults[key and value start at zero]"), Kind: "decode", OpaqueSpec: true, Guard: pre.guard, Goal: goal, Pos: c.pos(fs.Pos()), Text: text})
+	}
+	ls.BodyObl = func(c *Ctx, before, after *State, _ string) {
+		i0v, ok0 := envByName(before, "iNdEx", fs.Pos())
+		i1v, ok1 := envByName(after, "iNdEx", fs.Pos())
+		k0, ok2 := envByName(before, "mapkey", fs.Pos())
+		k1, ok3 := envByName(after, "mapkey", fs.Pos())
+		v0, ok4 := envByName(before, "mapvalue", fs.Pos())
+		v1, ok5 := envByName(after, "mapvalue", fs.Pos())
+		if !(ok0 && ok1 && ok2 && ok3 && ok4 && ok5) {
+			return
+		}
+		s := i0v.(Scalar).T
+		i1 := i1v.(Scalar).T
+		tag := d.vval(after, s)
+		p := "(bvadd " + d.vend(after, s) + " (_ bv1 64))"
+		fn := "((_ extract 31 0) (bvlshr " + tag + " (_ bv3 64)))"
+		is := func(n int) string { return fmt.Sprintf("(= %s (_ bv%d 32))", fn, n) }
+		if g, next, ok := d.payloadSpec(c, after, f.Key, p, k1, fs.Pos(), fs.End()); ok {
+			c.addObl(Obl{Name: name("entry-key[field 1 sets the key to FromWire, value kept]"), Kind: "decode", OpaqueSpec: true, Guard: after.guard,
+				Goal: implies(is(1), and(g, and("(= "+i1+" "+next+")", c.valSame(after, v0, v1)))), Pos: c.pos(fs.Pos()),
+				Text: "field 1 of a map entry decodes the key with the key kind's wire encoding, consumes exactly that field and leaves the value alone"})
+		}
+		if g, next, ok := d.payloadSpec(c, after, f.Val, p, v1, fs.Pos(), fs.End()); ok {
+			c.addObl(Obl{Name: name("entry-value[field 2 sets the value to FromWire, key kept]"), Kind: "decode", OpaqueSpec: true, Guard: after.guard,
+				Goal: implies(is(2), and(g, and("(= "+i1+" "+next+")", c.valSame(after, k0, k1)))), Pos: c.pos(fs.Pos()),
+				Text: "field 2 of a map entry decodes the value with the value kind's wire encoding, consumes exactly that field and leaves the key alone"})
+		}
+		c.addObl(Obl{Name: name("entry-other[other fields leave key and value alone]"), Kind: "decode", OpaqueSpec: true, Guard: after.guard,
+			Goal: implies(and(not(is(1)), not(is(2))), and(c.valSame(after, k0, k1), c.valSame(after, v0, v1))), Pos: c.pos(fs.Pos()),
+			Text: "a field of a map entry other than 1 and 2 is skipped"})
+	}
+}
+
+func (d *decEngine) mapCaseExit(c *Ctx, cc *ast.CaseClause, f *FieldSchema, e, x1 *State, add func(cl, goal, text string)) {
+	m0, okA := c.loadField(e, d.x, f.GoName).(MapV)
+	m1, okB := c.loadField(x1, d.x, f.GoName).(MapV)
+	kv, ok1 := envByName(x1, "mapkey", cc.End())
+	vv, ok2 := envByName(x1, "mapvalue", cc.End())
+	if !okA || !okB || !ok1 || !ok2 {
+		return
+	}
+	goal := "false"
+	for _, ev := range c.mapEvents {
+		if ev.Pos < cc.Pos() || ev.Pos > cc.End() {
+			continue
+		}
+		made := "false"
+		for _, id := range c.mapMakes {
+			made = or(made, "(= "+ev.Old.Id+" "+id+")")
+		}
+		base := or(and(not(m0.Nil), "(= "+ev.Old.Id+" "+m0.Id+")"), and(m0.Nil, made))
+		goal = or(goal, and(ev.Guard, and("(= "+ev.New.Id+" "+m1.Id+")", and(base, and(c.valSame(x1, ev.K, kv), c.valSame(x1, ev.V, vv))))))
+	}
+	add("entry[map == map at entry with (key, value) stored]", goal,
+		"at the end of a map record the field is the map it was before (a fresh empty map if it was nil) with exactly the decoded (key, value) stored: later entries win, other keys are kept")
 }
 
 var _ = strings.HasPrefix
